@@ -181,3 +181,64 @@ Section Tie.
     flat_map TVal.visit_table (TVal.visit_nested (dt_of_tbl (tv_doc false m)) [] false) = TVal.emit_table_doc false (erase_entries m).
   Proof. rewrite doc_tie_table. reflexivity. Qed.
 End Tie.
+
+From TV Require Spec.Canonical Props.C17.
+Theorem toml_sections tok m :
+  flat_map TVal.visit_table (TVal.visit_nested (dt_of_tbl tok (tv_doc true m)) [] false)
+  = Spec.Canonical.sections_of false true true (erase_entries tok m) /\
+  flat_map TVal.visit_table (TVal.visit_nested (dt_of_tbl tok (tv_doc false m)) [] false)
+  = Spec.Canonical.sections_of false false true (erase_entries tok m).
+Proof.
+  split.
+  - rewrite sections_tie_value. exact (Props.C17.C17_canonical_document Spec.Canonical.WValue false (erase_entries tok m)).
+  - rewrite sections_tie_table. exact (Props.C17.C17_canonical_document Spec.Canonical.WTable false (erase_entries tok m)).
+Qed.
+
+(* ---- under BTreeMap: the sorted forms coincide ------------------------------------------------------------------------------ *)
+From Coq Require Import Permutation.
+Section Sorted.
+  Variable tok : scalar -> bytes.
+  Import Spec.Canonical.
+
+  Lemma perm_tvc_erase : forall a b, perm_tvc a b -> perm_tv (erase tok a) (erase tok b).
+  Proof.
+    fix IH 3. intros a b H. destruct H as [s | l l' Hl | m m1 m' Hp Hm].
+    - constructor.
+    - cbn [erase]. constructor. induction Hl as [|x y l l' Hxy _ IHl]; cbn [map]; [constructor|]. constructor; [apply IH, Hxy|exact IHl].
+    - cbn [erase]. apply PTab with (m1 := map (fun kv => (fst kv, erase tok (snd kv))) m1).
+      + apply Permutation_map, Hp.
+      + clear Hp. induction Hm as [|x y l l' [Hk Hxy] _ IHl]; cbn [map]; [constructor|]. constructor; [|exact IHl].
+        cbn [fst snd]. split; [exact Hk|apply IH, Hxy].
+  Qed.
+
+  Lemma keys_distinct_nodup {A} (m : list (bytes * A)) : NoDup (map fst m) -> keys_distinct m = true.
+  Proof.
+    induction m as [|[k x] m IH]; [reflexivity|]. cbn [map fst keys_distinct]. intro H. inversion H as [|? ? Hn Hnd]; subst.
+    rewrite (IH Hnd), andb_true_r. apply negb_true_iff. unfold key_in.
+    destruct (existsb (fun kv => bytes_eqb (fst kv) k) m) eqn:E; [|reflexivity].
+    apply existsb_exists in E as ([k' x'] & Hin & Heq). cbn [fst] in Heq. apply bytes_eqb_eq in Heq. subst k'.
+    exfalso. apply Hn. apply (in_map fst) in Hin. exact Hin.
+  Qed.
+
+  Lemma wf_tv_erase : forall v, wf_tvc v -> wf_tv (erase tok (norm_leaves v)) = true.
+  Proof.
+    apply wf_tvc_strong.
+    - reflexivity.
+    - intros l _ IH. cbn [norm_leaves erase wf_tv]. rewrite !map_map. induction IH as [|x l Hx _ IHl]; [reflexivity|].
+      cbn [map forallb]. rewrite Hx, IHl. reflexivity.
+    - intros m Hnd _ _ IH. cbn [norm_leaves erase]. rewrite map_map. cbn [fst snd wf_tv].
+      apply andb_true_iff. split.
+      + apply keys_distinct_nodup. rewrite map_map. cbn [fst]. exact Hnd.
+      + induction m as [|[k x] m IHm]; [reflexivity|]. cbn [map fst snd] in *. inversion IH as [|? ? Hx Hm]; subst.
+        inversion Hnd; subst. rewrite Hx. cbn [andb]. apply IHm; assumption.
+  Qed.
+
+  (* sorted by key at every level (what the value is when toml::Map is a BTreeMap) the decoded value and the printed one
+     coincide, whatever tokens stand for the leaves *)
+  Theorem toml_display_sorted three m :
+    wf_tvc (TvTab m) ->
+    sort_tv (erase tok (TvTab (root_order three m))) = sort_tv (erase tok (norm_leaves (TvTab m))).
+  Proof.
+    intro Hwf. symmetry. apply (Props.C17.C17_permuted_is_equiv _ _ (perm_tvc_erase _ _ (document_same three m)) (wf_tv_erase _ Hwf)).
+  Qed.
+End Sorted.
